@@ -308,18 +308,61 @@ func bulkFold(c *Ctx, info *types.Info, fd *ast.FuncDecl, single string, onRecvO
 }
 
 func bulkFoldSet(c *Ctx, info *types.Info, fd *ast.FuncDecl, accept map[string]bool, delegates map[string]bool) string {
-	params := paramObjs(info, fd)
+	var operands []types.Object
+	for _, p := range paramObjs(info, fd) {
+		operands = append(operands, p)
+	}
+	return foldOver(c, info, fd, operands, accept, delegates, 0)
+}
+
+// foldOver: see bulkFold.  operands are the parameters of fd that carry the operand.  A method
+// without a loop may hand the operand to a private helper of the repository: the helper is
+// checked in its place (up to three levels).  Complaints that start with "skip:" mean that
+// the method has a shape this rule does not understand (nothing is claimed about it).
+func foldOver(c *Ctx, info *types.Info, fd *ast.FuncDecl, operands []types.Object, accept, delegates map[string]bool, depth int) string {
+	isOperand := func(e ast.Expr) bool {
+		for _, p := range operands {
+			if isObj(info, e, p) {
+				return true
+			}
+		}
+		return false
+	}
 	loops := loopsIn(fd.Body)
-	if len(loops) == 0 && len(delegates) > 0 {
+	if len(loops) == 0 {
 		ok := false
+		res := "skip: the operand is neither enumerated in the method nor handed to a method or helper that enumerates it"
 		ast.Inspect(fd.Body, func(x ast.Node) bool {
-			if _, mname, call, isCall := methodCall(x); isCall && delegates[mname] {
-				for _, a := range call.Args {
-					for _, p := range params {
-						if isObj(info, a, p) {
-							ok = true
-						}
-					}
+			call, isCall := x.(*ast.CallExpr)
+			if !isCall {
+				return true
+			}
+			for ai, a := range call.Args {
+				if !isOperand(a) {
+					continue
+				}
+				if _, mname, _, isM := methodCall(call); isM && delegates[mname] {
+					ok = true
+					continue
+				}
+				cf := calleeOf(info, call)
+				if cf == nil || depth >= 3 {
+					continue
+				}
+				hd := c.declOf(cf.Origin())
+				if hd == nil || hd.Body == nil || hd == fd {
+					continue
+				}
+				hinfo := c.infoFor(hd)
+				hp := paramObjs(hinfo, hd)
+				if ai >= len(hp) {
+					continue
+				}
+				sub := foldOver(c, hinfo, hd, []types.Object{hp[ai]}, accept, delegates, depth+1)
+				if sub == "" {
+					ok = true
+				} else if !strings.HasPrefix(sub, "skip:") {
+					res = "in the helper " + cf.Name() + ": " + sub
 				}
 			}
 			return true
@@ -327,13 +370,16 @@ func bulkFoldSet(c *Ctx, info *types.Info, fd *ast.FuncDecl, accept map[string]b
 		if ok {
 			return ""
 		}
-		return "the operand is neither enumerated nor handed to a bulk method that enumerates it"
+		return res
 	}
 	if len(loops) != 1 {
-		return fmt.Sprintf("%d loops, required one loop over the operand", len(loops))
+		return fmt.Sprintf("skip: %d loops; the fold rule is bound to one loop over the operand", len(loops))
 	}
 	it, bad := coveringLoop(c, info, loops[0])
 	if bad != "" {
+		if strings.Contains(bad, "is not `iterator.HasNext()`") || strings.Contains(bad, "no condition") {
+			return "skip: " + bad
+		}
 		return bad
 	}
 	// the iterator enumerates a parameter
@@ -341,24 +387,27 @@ func bulkFoldSet(c *Ctx, info *types.Info, fd *ast.FuncDecl, accept map[string]b
 	ast.Inspect(fd.Body, func(x ast.Node) bool {
 		if lhs, rhs, ok := multiDef(x); ok && len(lhs) == 1 && it != nil && identObj(info, lhs[0]) == it {
 			if rx, mname, _, ok := methodCall(ast.Unparen(rhs)); ok && mname == "GetIterator" {
-				for _, p := range params {
-					if isObj(info, rx, p) {
-						srcOK = true
-					}
+				if isOperand(rx) {
+					srcOK = true
 				}
 			}
 		}
 		return true
 	})
 	if rs, ok := loops[0].(*ast.RangeStmt); ok {
-		for _, p := range params {
-			if isObj(info, rs.X, p) {
-				srcOK = true
-			}
+		src := ast.Unparen(rs.X)
+		if id, isID := src.(*ast.Ident); isID && !isOperand(id) {
+			src = ast.Unparen(resolveInitIn(info, fd.Body, id))
+		}
+		if isOperand(src) {
+			srcOK = true
+		}
+		if rx, mname, _, ok := methodCall(src); ok && mname == "AsArray" && isOperand(rx) {
+			srcOK = true
 		}
 	}
 	if !srcOK {
-		return "the loop does not enumerate the operand"
+		return "skip: the loop does not enumerate the operand directly"
 	}
 	var body *ast.BlockStmt
 	var elem types.Object
@@ -369,42 +418,47 @@ func bulkFoldSet(c *Ctx, info *types.Info, fd *ast.FuncDecl, accept map[string]b
 		body = l.Body
 		elem = identObj(info, l.Value)
 	}
-	found := false
+	usesElem := func(call *ast.CallExpr) bool {
+		uses := false
+		for _, a := range call.Args {
+			ast.Inspect(a, func(y ast.Node) bool {
+				if id, ok := y.(*ast.Ident); ok && elem != nil && info.Uses[id] == elem {
+					uses = true
+				}
+				return true
+			})
+			src := resolveInitIn(info, body, a)
+			if methodCallOn(info, src, it, "GetNext") {
+				uses = true
+			}
+			ast.Inspect(src, func(y ast.Node) bool {
+				if id, ok := y.(*ast.Ident); ok && elem != nil && info.Uses[id] == elem {
+					uses = true
+				}
+				return true
+			})
+			if methodCallOn(info, ast.Unparen(a), it, "GetNext") {
+				uses = true
+			}
+		}
+		return uses
+	}
+	found, conditional := false, false
 	for _, s := range body.List {
 		if lhs, rhs, ok := multiDefStmt(s); ok && len(lhs) == 1 && it != nil && methodCallOn(info, ast.Unparen(rhs), it, "GetNext") {
 			elem = identObj(info, lhs[0])
 			continue
 		}
-		// a top-level statement (not an if/switch) containing recv.single(... derived from elem ...)
+		nested := false
 		switch s.(type) {
 		case *ast.IfStmt, *ast.SwitchStmt, *ast.ForStmt, *ast.RangeStmt, *ast.TypeSwitchStmt:
-			continue
+			nested = true
 		}
 		ast.Inspect(s, func(x ast.Node) bool {
-			if _, mname, call, ok := methodCall(x); ok && accept[mname] && len(call.Args) >= 1 {
-				uses := false
-				for _, a := range call.Args {
-					ast.Inspect(a, func(y ast.Node) bool {
-						if id, ok := y.(*ast.Ident); ok && elem != nil && info.Uses[id] == elem {
-							uses = true
-						}
-						return true
-					})
-					src := resolveInitIn(info, body, a)
-					if methodCallOn(info, src, it, "GetNext") {
-						uses = true
-					}
-					ast.Inspect(src, func(y ast.Node) bool {
-						if id, ok := y.(*ast.Ident); ok && elem != nil && info.Uses[id] == elem {
-							uses = true
-						}
-						return true
-					})
-					if methodCallOn(info, ast.Unparen(a), it, "GetNext") {
-						uses = true
-					}
-				}
-				if uses {
+			if _, mname, call, ok := methodCall(x); ok && accept[mname] && len(call.Args) >= 1 && usesElem(call) {
+				if nested {
+					conditional = true
+				} else {
 					found = true
 				}
 			}
@@ -417,7 +471,10 @@ func bulkFoldSet(c *Ctx, info *types.Info, fd *ast.FuncDecl, accept map[string]b
 			names = append(names, n)
 		}
 		sort.Strings(names)
-		return "the loop body does not unconditionally apply " + strings.Join(names, "/") + " to the element it visits"
+		if conditional {
+			return "the loop body applies " + strings.Join(names, "/") + " to the element it visits only under a condition: not every element of the operand is processed"
+		}
+		return "skip: the loop body does not call " + strings.Join(names, "/") + " with the element it visits"
 	}
 	return ""
 }
